@@ -161,3 +161,57 @@ func DataSpec(thorough bool) Spec {
 	}
 	return Spec{Name: "data", Seeds: seeds, Events: evs, DepthQuick: 4, DepthThor: 5, ExpectFail: exp, MinStates: 500}
 }
+
+// Long content hashes: message validation admits digests of up to 64 bytes. Two graph hashes and two raw hashes of 64
+// bytes that agree on their first 40 bytes (beyond any 32-byte buffer) and differ only in the last byte, and a 33-byte one.
+func longHash(last byte, n int) []byte {
+	h := bytes.Repeat([]byte{0xab}, n)
+	h[n-1] = last
+	return h
+}
+
+func LG(last byte) *data.ContentHash_Graph {
+	return &data.ContentHash_Graph{Hash: longHash(last, 64), DigestAlgorithm: 1, CanonicalizationAlgorithm: 1}
+}
+
+func LR(last byte, n int) *data.ContentHash {
+	return &data.ContentHash{Raw: &data.ContentHash_Raw{Hash: longHash(last, n), DigestAlgorithm: 1, FileExtension: "bin"}}
+}
+
+// DataLongUniverse: the content hashes of the long-hash scenario plus one never named.
+func DataLongUniverse() []*data.ContentHash {
+	return []*data.ContentHash{{Graph: LG(1)}, {Graph: LG(2)}, LR(1, 64), LR(2, 64), LR(1, 33), LR(2, 33), {Graph: LG(3)}, RawHash(1)}
+}
+
+// DataLong is a small data scenario over long digests (C16, C15): production hasher and one colliding hasher.
+func DataLong() Spec {
+	var seeds []explore.Seed
+	for _, hc := range Hashers(false)[:2] {
+		hc := hc
+		seeds = append(seeds, explore.Seed{Name: "long/" + hc.name, Opts: chain.Options{Hasher: hc.h()}, Build: func(c *chain.Chain) sdk.Context {
+			ctx := c.BaseContext(chain.T0, 1)
+			c.InitGenesis(ctx, chain.Genesis{Balances: StdFunds()})
+			return mustRun(c, ctx, Msg("seed:DefineResolver(B,url1,private)", &data.MsgDefineResolver{Definer: B.String(), ResolverUrl: "https://r1.example", Public: false}))
+		}})
+	}
+	b, c := B.String(), C.String()
+	evs := []E{
+		fix(Msg("Anchor(B,LG1)", &data.MsgAnchor{Sender: b, ContentHash: &data.ContentHash{Graph: LG(1)}})),
+		fix(Msg("Anchor(C,LG2)", &data.MsgAnchor{Sender: c, ContentHash: &data.ContentHash{Graph: LG(2)}})),
+		fix(Msg("Anchor(B,LR1/64)", &data.MsgAnchor{Sender: b, ContentHash: LR(1, 64)})),
+		fix(Msg("Anchor(C,LR2/64)", &data.MsgAnchor{Sender: c, ContentHash: LR(2, 64)})),
+		fix(Msg("Anchor(B,LR1/33)", &data.MsgAnchor{Sender: b, ContentHash: LR(1, 33)})),
+		fix(Msg("Anchor(C,LR2/33)", &data.MsgAnchor{Sender: c, ContentHash: LR(2, 33)})),
+		fix(Msg("Attest(C,LG1)", &data.MsgAttest{Attestor: c, ContentHashes: []*data.ContentHash_Graph{LG(1)}})),
+		fix(Msg("Attest(B,LG2)", &data.MsgAttest{Attestor: b, ContentHashes: []*data.ContentHash_Graph{LG(2)}})),
+		fix(Msg("Attest(B,LG1+LG2)", &data.MsgAttest{Attestor: b, ContentHashes: []*data.ContentHash_Graph{LG(1), LG(2)}})),
+		fix(Msg("RegisterResolver(B,#1,LR1/64)", &data.MsgRegisterResolver{Signer: b, ResolverId: 1, ContentHashes: []*data.ContentHash{LR(1, 64)}})),
+		fix(Msg("RegisterResolver(B,#1,LR2/64+LG2)", &data.MsgRegisterResolver{Signer: b, ResolverId: 1, ContentHashes: []*data.ContentHash{LR(2, 64), {Graph: LG(2)}}})),
+		fix(Next(time.Second)),
+	}
+	exp := map[string]bool{}
+	for _, e := range evs {
+		exp[e.Name] = true
+	}
+	return Spec{Name: "data-long", Seeds: seeds, Events: evs, DepthQuick: 3, DepthThor: 4, ExpectFail: exp, MinStates: 100}
+}
